@@ -28,6 +28,17 @@ def run(chk):
         if i != w:
             chk.violate({"kind": "property", "case": lib.show_case(c), "impl": i[:2000], "expected": w[:2000],
                          "explanation": "iterating a well-formed ar archive did not return its members with exact metadata and bytes (also after re-reading earlier members)"})
+    # consumers that do not read the members while iterating (or read a single byte): the iterator and the
+    # members' readers are independent of how much of each member has been consumed
+    sub = list(range(0, len(cases), 3))
+    for mode in (b"skip", b"one"):
+        lc = [("ariterlazy", [cases[k][1][0], mode]) for k in sub]
+        li = chk.run_impl(lc)
+        chk.record("lazy-consumer-" + mode.decode(), lc, li, lambda c, r: r.startswith("[ "))
+        for c, r, k in zip(lc, li, sub):
+            if r != impl[k]:
+                chk.violate({"kind": "property", "case": lib.show_case(c), "eager": impl[k][:1500], "lazy": r[:1500],
+                             "explanation": "a consumer that does not read the members while iterating (mode %s) sees other members or bytes than one that reads each member at once" % mode.decode()})
     # archives made by the system ar from the same members
     made = system_ar(chk, rng)
     if made:
